@@ -379,7 +379,8 @@ def targetIsType (t : Ty) : Bool :=
   | .fund _ _ => true
   | _ => false
 
-/-- `_is_pointer_type(node, annotations)`; `.error` is `None.endswith` -/
+/-- `_is_pointer_type(node, annotations)`; a basic type without a C type (a `(type)` override of a signal
+    parameter) is not a pointer (d9df372; `None.endswith` before) -/
 def isPointerType (isRet : Bool) (d : Dir) (t : Ty) : M Bool :=
   if !isRet && isOutish d then .ok true
   else
@@ -388,12 +389,12 @@ def isPointerType (isRet : Bool) (d : Dir) (t : Ty) : M Bool :=
       if !t.inFunds Gen.ParamAnn.basicTypes then .ok true
       else match t.info.ctype with
         | some c => .ok (endsWith c ['*'])
-        | none => .error (.raises (G "AttributeError: 'NoneType' object has no attribute 'endswith'"))
+        | none => .ok false
     | .fund f c =>
       if !(Gen.ParamAnn.basicTypes.any (fun n => G n == f)) then .ok true
       else match c with
         | some c => .ok (endsWith c ['*'])
-        | none => .error (.raises (G "AttributeError: 'NoneType' object has no attribute 'endswith'"))
+        | none => .ok false
     | _ => .ok true
 
 /-- `_get_transfer_default(parent, node)` -/
